@@ -214,8 +214,8 @@ structure Heap where
   size : Nat
 deriving Repr, DecidableEq
 
-/-- `MinHeap.__cinit__(n)`: `reserve(n)` on both vectors (the memory exists, its content is never read before
-    it is written) -/
+/-- `MinHeap.__cinit__(n)`: `resize(n)` on both vectors (value-initialised cells; the pinned tree used
+    `reserve(n)`, repaired in /repo by the owner of C17) -/
 def Heap.empty (n : Nat) : Heap := ⟨List.replicate n 0, List.replicate n 0, 0⟩
 
 /-- `swap(x, y)` -/
@@ -330,6 +330,11 @@ def coreInit (indptr : List Nat) : CoreState :=
 def computeCore (indptr indices : List Nat) : Option (List Int) :=
   (coreLoop indptr indices (indptr.length - 1) (coreInit indptr)).map (·.labels)
 
+/-- `get_core_decomposition(adjacency)`: `check_format`, `check_square` (a non-square matrix is refused), then
+    `compute_core` on the CSR arrays -/
+def getCoreDecomposition (nRow nCol : Nat) (indptr indices : List Nat) : Except PyErr (Option (List Int)) :=
+  if nRow != nCol then .error .valueError else .ok (computeCore indptr indices)
+
 /-! ### cliques.pyx -/
 
 structure Box where
@@ -430,6 +435,17 @@ def argsort (d : List Int) : List Nat :=
 /-- CSR structure of the stored non-zero entries of a canonical matrix -/
 def csrOfEdge (n : Nat) (edge : Nat → Nat → Bool) : Dag :=
   csrOfRows (tab n fun i => (List.range n).filter (edge i))
+
+/-- `count_cliques(adjacency, clique_size)` on a matrix of shape `nRow × nCol`: the clique size is checked first,
+    then `get_core_decomposition` refuses a non-square matrix -/
+def countCliquesEntry (nRow nCol : Nat) (g : Dag) (edge : Nat → Nat → Bool) (k : Int) :
+    Except PyErr (Option Nat) :=
+  if k < 2 then .error .valueError
+  else if nRow != nCol then .error .valueError
+  else
+    match computeCore g.indptr g.indices with
+    | none => .ok none
+    | some values => (countCliquesWith nRow edge k.toNat (argsort values)).map some
 
 /-- `count_cliques(adjacency, clique_size)`: `g` is the CSR structure `get_core_decomposition` receives
     (all stored entries), `edge` the stored non-zero entries (`astype(bool)` in `get_dag`). -/
